@@ -137,4 +137,9 @@ type Link struct {
 	"test/internal/zzverif5/c_ops.go": "package zzverif5\n\nimport \"github.com/csgura/fp/genfp\"\n\n// @internal.Generate\nvar _ = genfp.GenerateFromUntil{\n\tFile:  \"a_gen.go\",\n\tFrom:  1,\n\tUntil: 3,\n\tTemplate: `\nfunc Cops{{.N}}() string { return \"Cops{{.N}}\" }\n`,\n}\n",
 	"test/internal/zzverif5/d_ops.go": "package zzverif5\n\nimport \"github.com/csgura/fp/genfp\"\n\n// @internal.Generate\nvar _ = genfp.GenerateFromUntil{\n\tFile:  \"a_gen.go\",\n\tFrom:  1,\n\tUntil: 3,\n\tTemplate: `\nfunc Dops{{.N}}() string { return \"Dops{{.N}}\" }\n`,\n}\n",
 	"test/internal/zzverif5/e_ops.go": "package zzverif5\n\nimport \"github.com/csgura/fp/genfp\"\n\n// @internal.Generate\nvar _ = genfp.GenerateFromUntil{\n\tFile:  \"z_gen.go\",\n\tFrom:  1,\n\tUntil: 3,\n\tTemplate: `\nfunc Eops{{.N}}() string { return \"Eops{{.N}}\" }\n`,\n}\n",
+	// one field type expression that uses two imports, one of which (x) means another package in the
+	// other source file while the other (y) is a non-default alias: which imports get registered, and
+	// under which names, must not depend on the order in which the uses of the expression are visited
+	"test/internal/zzverif6/a.go": "package zzverif6\n\nimport (\n\tx \"time\"\n)\n\n//go:generate go run github.com/csgura/fp/cmd/gombok\n\n// @fp.Value\ntype Alpha struct {\n\ttimeout x.Duration\n}\n",
+	"test/internal/zzverif6/b.go": "package zzverif6\n\nimport (\n\ty \"net/netip\"\n\tx \"net/url\"\n)\n\n// @fp.Value\ntype Beta struct {\n\troutes map[y.Addr]x.URL\n\tpairs  map[x.Userinfo]y.Prefix\n}\n\n// @fp.Value\ntype Gamma struct {\n\tboth func(y.AddrPort, x.Values) (x.URL, y.Addr)\n}\n",
 }
